@@ -68,7 +68,12 @@ func letterOf(t b6.FeatureType) string {
 	return "?"
 }
 
-// ID maps a name to the concrete feature ID. Value = number + 1 (never zero).
+// OSMScheme switches the name <-> ID mapping to OpenStreetMap namespaces (spec/OSMMap.tla): the number in a name
+// is the OSM id; P -> point/node, W -> path/way, A<n> (n < 100) -> area in the way namespace, A<100+r> -> area in
+// the relation namespace, R -> relation.  Set once per worker process before any case runs.
+var OSMScheme = false
+
+// ID maps a name to the concrete feature ID. Default scheme: value = number + 1 (never zero).
 func ID(name string) b6.FeatureID {
 	if len(name) < 2 {
 		return b6.FeatureIDInvalid
@@ -77,11 +82,42 @@ func ID(name string) b6.FeatureID {
 	if err != nil {
 		return b6.FeatureIDInvalid
 	}
+	if OSMScheme {
+		switch name[0] {
+		case 'P':
+			return b6.FeatureID{Type: b6.FeatureTypePoint, Namespace: b6.NamespaceOSMNode, Value: uint64(n)}
+		case 'W':
+			return b6.FeatureID{Type: b6.FeatureTypePath, Namespace: b6.NamespaceOSMWay, Value: uint64(n)}
+		case 'A':
+			if n >= 100 {
+				return b6.FeatureID{Type: b6.FeatureTypeArea, Namespace: b6.NamespaceOSMRelation, Value: uint64(n - 100)}
+			}
+			return b6.FeatureID{Type: b6.FeatureTypeArea, Namespace: b6.NamespaceOSMWay, Value: uint64(n)}
+		case 'R':
+			return b6.FeatureID{Type: b6.FeatureTypeRelation, Namespace: b6.NamespaceOSMRelation, Value: uint64(n)}
+		}
+		return b6.FeatureIDInvalid
+	}
 	return b6.FeatureID{Type: typeOf(name[0]), Namespace: Namespace, Value: uint64(n + 1)}
 }
 
 // Name is the inverse of ID; IDs outside the model render as their string form.
 func Name(id b6.FeatureID) string {
+	if OSMScheme {
+		switch {
+		case id.Type == b6.FeatureTypePoint && id.Namespace == b6.NamespaceOSMNode:
+			return "P" + strconv.Itoa(int(id.Value))
+		case id.Type == b6.FeatureTypePath && id.Namespace == b6.NamespaceOSMWay:
+			return "W" + strconv.Itoa(int(id.Value))
+		case id.Type == b6.FeatureTypeArea && id.Namespace == b6.NamespaceOSMWay && id.Value < 100:
+			return "A" + strconv.Itoa(int(id.Value))
+		case id.Type == b6.FeatureTypeArea && id.Namespace == b6.NamespaceOSMRelation:
+			return "A" + strconv.Itoa(int(id.Value)+100)
+		case id.Type == b6.FeatureTypeRelation && id.Namespace == b6.NamespaceOSMRelation:
+			return "R" + strconv.Itoa(int(id.Value))
+		}
+		return id.String()
+	}
 	if id.Namespace == Namespace && id.Value >= 1 && letterOf(id.Type) != "?" {
 		return letterOf(id.Type) + strconv.Itoa(int(id.Value-1))
 	}
